@@ -23,6 +23,13 @@
 (*           the VALUE of the caller's list and WHICH STORAGE it aliases.  *)
 (*           What Encode writes is a function of the value alone.  Every   *)
 (*           history of MaxOps calls is printed for replay (HistEmit).     *)
+(*  "codech" the codec API as an object with a history: mac.Encode returns a *)
+(*           byte slice, name.Info.Encode a table, the decoders strings:   *)
+(*           a result handed out by an earlier call must keep its value    *)
+(*           whatever is called later (no result may live in storage a     *)
+(*           later call writes).  Actions ME / MD / NE / ND with lengths   *)
+(*           around a plausible scratch-buffer size; every history of      *)
+(*           CMaxOps calls is printed for replay (CodecHistEmit).          *)
 (*  "codec"  every short sequence of boundary code units / code points and *)
 (*           every byte: the codecs invert each other on their domains.    *)
 (*  "tags"   OpenType (script, language) pairs -> BCP 47 tag with a        *)
@@ -43,6 +50,8 @@ CONSTANTS Part,
           CCps,      \* "codec": boundary code points
           MaxOps,    \* "posth": length of the call histories
           AllowSharedMutation,  \* "posth": may the caller write into storage the package owns? (contract: no)
+          CMaxOps,   \* "codech": length of the call histories
+          AllowScratchReuse,    \* "codech": may a short result live in a buffer the next call overwrites? (no)
           Pairs,     \* "tags": set of <<script, language>> (model values)
           BaseOf     \* "tags": function Pairs -> base tag (not injective)
 
@@ -285,6 +294,37 @@ HistEmit == (Part = "posth" /\ Len(cw.ops) = MaxOps) =>
               PrintT(<<"CASE", ToJson([part |-> "posthist", init |-> cw.init, ops |-> cw.ops])>>)
 
 ---------------------------------------------------------------------------
+(* "codech": results with a history.  A result is identified by the call that  *)
+(* produced it; it lives either in storage of its own or (the design this      *)
+(* machine rules out) in the package's scratch buffer, whose content is the    *)
+(* result of the LAST call that used it.                                       *)
+(*   cw.ops   the calls so far: [op, a] with a = length class of the argument  *)
+(*   cw.outs  per call, where its result lives: "own" | "buf"                  *)
+(*   cw.buf   the call whose result the scratch buffer holds now (0 = none)    *)
+
+CodecOps  == {"ME", "MD", "NE", "ND"}     \* mac.Encode, mac.Decode, name.Info.Encode, name.Decode
+CodecLens == {0, 1, 63, 64, 65, 200}      \* around a 64-byte buffer, empty, long
+ScratchSize == 64
+
+CodecHistInit == cw = [k |-> "ch", ops |-> <<>>, outs |-> <<>>, buf |-> 0] /\ ph = "hist"
+
+CodecCall ==
+  /\ Part = "codech" /\ Len(cw.ops) < CMaxOps
+  /\ \E o \in CodecOps, n \in CodecLens :
+       LET me    == Len(cw.ops) + 1
+           inbuf == AllowScratchReuse /\ o = "ME" /\ n <= ScratchSize
+       IN  cw' = [cw EXCEPT !.ops = Append(cw.ops, [op |-> o, a |-> n]),
+                            !.outs = Append(cw.outs, IF inbuf THEN "buf" ELSE "own"),
+                            !.buf = IF inbuf THEN me ELSE cw.buf]
+
+\* the value a retained result has NOW: its own, or whatever the buffer holds
+ValueNow(i) == IF cw.outs[i] = "buf" THEN cw.buf ELSE i
+\* none of the results handed out so far has changed
+ResultsStable == Part = "codech" => \A i \in 1..Len(cw.outs) : ValueNow(i) = i
+CodecHistEmit == (Part = "codech" /\ Len(cw.ops) = CMaxOps) =>
+                   PrintT(<<"CASE", ToJson([part |-> "codechist", ops |-> cw.ops])>>)
+
+---------------------------------------------------------------------------
 (* "codec": one state per value *)
 
 CodecInit ==
@@ -344,12 +384,14 @@ NoPost == gl = NoNames /\ pidx = <<>> /\ pstr = <<>> /\ pbytes = <<>> /\ pdec = 
 Init == CASE Part = "name"  -> NameInit /\ NoPost /\ cw = [k |-> "none"]
           [] Part = "post"  -> PostInit /\ Idle /\ cw = [k |-> "none"]
           [] Part = "posth" -> HistInit /\ Idle /\ pidx = <<>> /\ pstr = <<>> /\ pdec = NoNames
+          [] Part = "codech" -> CodecHistInit /\ Idle /\ NoPost
           [] Part = "codec" -> CodecInit /\ Idle /\ NoPost
           [] Part = "tags"  -> TagsInit /\ Idle /\ NoPost
 
 Next == CASE Part = "name" -> NameNext /\ UNCHANGED <<gl, pidx, pstr, pbytes, pdec, cw>>
           [] Part = "post" -> PostNext /\ UNCHANGED <<src, todo, recs, stor, dec, cw>>
           [] Part = "posth" -> HistNext /\ UNCHANGED <<src, todo, recs, stor, dec, ph, pidx, pstr, pdec>>
+          [] Part = "codech" -> CodecCall /\ UNCHANGED <<src, todo, recs, stor, dec, ph, gl, pidx, pstr, pbytes, pdec>>
           [] OTHER -> FALSE
 
 Spec == Init /\ [][Next]_vars
